@@ -44,6 +44,12 @@ def cases(tier, seed):
             dw, nw = glyphs[names[0]]["w"] // 1024, (glyphs[names[-1]]["w"] // 1024) or 560
             info_["postscriptDefaultWidthX"], info_["postscriptNominalWidthX"] = dw, nw
             glyphs[names[-1]]["w"] = nw * 1024
+            if k % 6 == 4:
+                # the UFO specification allows any number here: a NEGATIVE nominal width (and, every other time, a zero
+                # default width) -- the charstrings' width operands and the Private DICT must still agree
+                info_["postscriptNominalWidthX"] = -40 - (k % 5)
+                if k % 12 == 4:
+                    info_["postscriptDefaultWidthX"] = 0
         ufo = {"glyphs": glyphs, "info": info_,
                "kerning": [[names[0], names[1], -40]], "kernScale": 1}
         case = {"cid": f"c12-{seed}-{k}", "lib": rng.choice(["ufoLib2", "defcon"]), "ufo": ufo}
